@@ -64,14 +64,14 @@ mutual
 def exactE (S : Schema) (inh : Option Op) (e : Option DNode) : DNode → Bool
   | .inner s f m ks =>
     domB S (.inner s f m ks) && metaOKB (.inner s f m ks) && !S.isKey s &&
-    match effOp inh (.inner s f m ks), e with
+    match effOp (.inner s f m ks) inh, e with
     | some .create, none => plainL ks && goodT S ks
     | some .delete, some x => dataEq true x (.inner s f m ks) && plainL ks && goodT S ks
-    | some .none, some x => !(noKeys S ks).isEmpty && exactK S (childInh inh (.inner s f m ks)) x.kids true ks
+    | some .none, some x => !(noKeys S ks).isEmpty && exactK S (childInhOf (.inner s f m ks) inh) x.kids true ks
     | _, _ => false
   | .term s f m v =>
     domB S (.term s f m v) && metaOKB (.term s f m v) && !S.isKey s &&
-    match effOp inh (.term s f m v), e with
+    match effOp (.term s f m v) inh, e with
     | some .create, none => true
     | some .delete, some x => dataEq true x (.term s f m v)
     | some .replace, some x =>
